@@ -90,7 +90,7 @@ func colAlts() []colAlt {
 		{label: "Drawing", typ: "Drawing", declB: tblUnion + "\ntype Drawing struct {\n\tMain  Shape\n\tMood  Mood\n\tRank  Role\n\tNote  string `json:\"note,omitempty\"`\n\tCount int `json:\",omitempty\"`\n\tExtra map[string]Circle\n}\n"},
 		// unions whose members all share one validation function: two named floats; a single member
 		{label: "Measure", typ: "Measure", declB: "type Quantity interface {\n\tisQuantity()\n}\n\ntype Celsius float64\n\ntype Meters float64\n\nfunc (Celsius) isQuantity() {}\nfunc (Meters) isQuantity()  {}\n\ntype Measure struct {\n\tQ     Quantity\n\tLabel string\n}\n"},
-		{label: "Solo", typ: "Solo", declB: "type Solo interface {\n\tisSolo()\n}\n\ntype Only struct {\n\tV int\n}\n\nfunc (Only) isSolo() {}\n"},
+		{label: "SoloBox", typ: "SoloBox", declB: "type Solo interface {\n\tisSolo()\n}\n\ntype Only struct {\n\tV int\n}\n\nfunc (Only) isSolo() {}\n\ntype SoloBox struct {\n\tS     Solo\n\tLabel string\n}\n"},
 		{label: "Scene", typ: "Scene", declB: tblUnion + "\ntype Drawable interface {\n\tisDrawable()\n}\n\ntype Text struct {\n\tS string\n}\n\nfunc (Circle) isDrawable() {}\nfunc (Text) isDrawable()   {}\n\ntype Drawables []Drawable\n\ntype Scene struct {\n\tMain  Shape\n\tExtra Drawables\n}\n"},
 		{label: "sql.NullInt64", typ: "sql.NullInt64"},
 		{label: "sql.NullString", typ: "sql.NullString"},
